@@ -516,6 +516,15 @@ parse_next_record_header:
         *in = pb.buf.start;
         return rc;
     }
+    else
+    {
+        /* RFC 8446, section 5: a protected change_cipher_spec record, or
+           any other unexpected (inner) content type, is never dropped
+           silently: abort with unexpected_message. */
+        psTraceIntInfo("Unexpected inner content type: %d\n", innerType);
+        ssl->err = SSL_ALERT_UNEXPECTED_MESSAGE;
+        goto encodeResponse;
+    }
 
     /* Advance pointer to point to after the data we have read. */
     *in = pb.buf.start;
